@@ -1,4 +1,5 @@
 import LoguruModel.Conc.Data
+import LoguruModel.Conc.Fifo
 import LoguruModel.Conc.ActivationLemmas
 import LoguruModel.Generated.ConcShape
 /-
@@ -72,6 +73,34 @@ theorem at_most_once_per_call (sched : List (Tid × Lab)) (t : Tid) (h : Hid) (m
 theorem registered_handlers_live (sched : List (Tid × Lab)) (h : Hid) (hr : h ∈ (run {} sched).reg) :
     ((run {} sched).hs h).stopped = false ∧ ((run {} sched).hs h).stops = 0 :=
   (inv_run sched).2.g7 h hr
+
+/-- PER-THREAD FIFO AND AT MOST ONCE: what a thread has written to the sink of a handler is a SUBSEQUENCE of
+the messages of the logging calls that thread has begun, in the order it began them (both lists newest
+first) – so each call delivers to each handler at most once and a thread's messages reach a sink in the
+order the thread logged them, for every schedule -/
+theorem per_thread_fifo_at_most_once (sched : List (Tid × Lab)) (t : Tid) (h : Hid) :
+    (seqOf (run {} sched) t h).Sublist ((run {} sched).started t) := by
+  have hf := fifoInv_run sched
+  cases hm : logMsg ((run {} sched).pc t) with
+  | none => exact hf.o3 t h hm
+  | some m =>
+    obtain ⟨rest, hrest⟩ := hf.hd t m hm
+    by_cases hk : h ∈ written ((run {} sched).pc t)
+    · obtain ⟨L', hL, hsub⟩ := hf.o1 t h m hm hk
+      rw [hL, hrest]; rw [hrest] at hsub; simpa using hsub
+    · have := hf.o2 t h m hm hk
+      rw [hrest] at this ⊢; simp at this; exact List.Sublist.cons _ this
+
+/-- a handler that is still registered is never skipped for being stopped: if `emit` reads `_stopped = True`
+the handler has already been unpublished by a remove() (so "registered before the call and not removed until
+after it" implies the write happens, unless level/filter reject it) -/
+theorem registered_never_seen_stopped (sched : List (Tid × Lab)) (t : Tid) (m : Nat) (h : Hid) (td wr : List Hid)
+    (hp : (run {} sched).pc t = .e2 m h td wr true) : h ∉ (run {} sched).reg := by
+  have hd := (inv_run sched).2
+  have := hd.pcs t; rw [hp] at this; simp [pcInv] at this
+  intro hr
+  have := (hd.g7 h hr).1
+  simp_all
 
 /-! ### deadlock freedom -/
 
